@@ -31,4 +31,16 @@ REG = {
          "one pseudo-random set of length 1..200. Real-valued Linear/Log_Space and statistics laws are accepted through integer-quantised "
          "residuals computed by the recorder (units of 64 eps x data scale). Trusted: TLC, recorder projection code.",
     technique="TLA+ specification of each helper (algorithm refines property, TLC exhaustive), replay of exported exact cases, trace validation of recorded results"),
+ "C04": dict(
+    engine="spec/LinAlg.tla, MC_LinAlg.tla, Trace_LinAlg.tla; harness/c04.cpp",
+    design_ref="DESIGN.md §4.4",
+    text="The specification defines every Vector/Matrix operation over the integers and when it is defined; TLC checks the algebraic "
+         "laws the statement lists on those definitions for all shape triples <=4 (5 thorough). Every operation, in every spelling "
+         "(member, operator, compound assignment, free operator), is executed by the real library on every shape triple <=5 and random "
+         "shapes to 8 with integer operands scaled by powers of two, and on every pairing of shapes <=3 (4 thorough) for the "
+         "'defined exactly when' clause; each recorded call is accepted by Trace_LinAlg only if returned <=> defined and the result "
+         "equals the definition exactly, and a rejection must be an exit with diagnostic, never a memory error.",
+    note="Entries are small integers times 2^k (exact in double): rounding behaviour of sums of general reals is not exercised. "
+         "Norm() is compared through round(Norm()^2). Trusted: TLC, the recorder's exact rescaling, fork-based outcome classification.",
+    technique="TLA+ definitions of the algebra (laws checked by TLC) + trace validation of every operation/spelling/shape recorded from the library"),
 }
